@@ -269,7 +269,20 @@ impl<T: Qcow2IoOps> Qcow2Dev<T> {
             }
         }
 
-        futures::future::join_all(f_vec).await;
+        let zero_res = futures::future::join_all(f_vec).await;
+        if let Some(Err(_)) = zero_res.iter().find(|r| r.is_err()) {
+            // some new cluster may not be zeroed, so nothing of these
+            // slices can be written out: leave each cluster as not zeroed,
+            // keep it in the new cluster map, and keep the slices dirty
+            for (_, mut locked_cls) in cluster_map {
+                *locked_cls = false;
+            }
+            for (_, e) in tv {
+                e.set_dirty(true);
+            }
+            self.mark_need_flush(true);
+            return Err("flush cache: fail to zero new cluster".into());
+        }
 
         {
             // drop every cluster lock before asking for the write lock of new
